@@ -791,6 +791,7 @@ Definition step (c : conn) (l : label) : option (conn * list obs) :=
   | LMadeWaiter =>
     match made_waiter c with
     | EPending => Some (c <| made_waiter := EOk |>, [])
+    | ECancelled => Some (c, [])     (* _set_result_unless_cancelled on a cancelled waiter: nothing happens *)
     | _ => None
     end
   | LHelperReady r =>
